@@ -54,6 +54,12 @@ static bool has_nan(const rnode* t) {
     if (has_nan(t->kids[i])) return true;
   return false;
 }
+static bool has_unassigned_simple(const rnode* t) {
+  if (t->kind == RK_SIMPLE && !(t->val >= 20 && t->val <= 23)) return true;
+  for (size_t i = 0; i < t->nkids; i++)
+    if (has_unassigned_simple(t->kids[i])) return true;
+  return false;
+}
 static int cmp_ptr(const void* a, const void* b) {
   uintptr_t x = (uintptr_t) * (void* const*)a, y = (uintptr_t) * (void* const*)b;
   return x < y ? -1 : x > y;
@@ -79,6 +85,13 @@ static void judge_tree(cbor_item_t* t, bool distinct) {
     cbor_decref(&t);
     return;
   }
+#if PROP == 3
+  if (has_unassigned_simple(w)) { /* C03 restricts simple values to the assigned ones (the decoder cannot read the others back) */
+    vf_cnt(K_OUTSIDE, 1);
+    cbor_decref(&t);
+    return;
+  }
+#endif
   if (distinct && vf_walk_nodes >= 2) vf_cnt(VC_DISTINCT, 1);
   if (vf_walk_nodes >= 3 && (vf_cnt_get_local(VC_EVAL) & 0xffff) == 9) {
     char hx[100];
@@ -280,7 +293,7 @@ static void constructed_unit(uint64_t u) {
   va_cap = 1 << 20;
   vt_choices ch;
   memset(&ch, 0, sizeof ch);
-  unsigned want[3] = {(unsigned)(u / 64), (unsigned)(u / 8 % 8), (unsigned)(u % 8)};
+  unsigned want[3] = {(unsigned)(u / 128), (unsigned)(u / 16 % 8), (unsigned)(u % 16)};
   for (int i = 0; i < 3; i++) ch.c[i] = (uint8_t)want[i];
   ch.fixed = 3;
   va_reset();
@@ -543,7 +556,7 @@ static void init(void) {
   cdepth = 2;
   bn_units = vf_bn_units();
   dfs_units = vf_dfs_units(&VF_SIGMA);
-  con_units = 128;
+  con_units = 256;
   vf_corpus_init();
   cor_units = vf_corpus_count();
   wide_units = 36;
